@@ -3,6 +3,7 @@ import PoaVerif.Witness.D1
 import PoaVerif.Witness.D2
 import PoaVerif.Props.C14
 import PoaVerif.Lemmas.Corollaries
+import PoaVerif.Lemmas.QuietEffect
 /-
   C03 — admin operations have exactly the requested effect, on the target only.
   FALSE of the code as stated (D1, D2, D6, D7); witnesses, and the handler-level part that holds.
@@ -109,5 +110,35 @@ theorem c03_candidate_power_partial (s s' : App) (c c' : CSet) (ups : List (Nat 
     (op : Nat) (v : Val) (hv : s.getVal op = some v) (hcand : hasCandEntry s v = true) :
     alookup v.key c' = some ((powerOf v.tokens : Nat) : Int) :=
   effect_pre s s' c c' ups hpre h hc op v hv hcand
+
+/-! ### along whole histories (the power-adjustment envelope, `Lemmas/Quiet.lean`, `Lemmas/QuietEffect.lean`) -/
+
+/-- **C03, requested effect, one quiet block from any state satisfying the between-blocks invariant `G`**: the block
+    runs, CometBFT accepts its update list, `G` holds again, and for the transaction at any position `pre.length` that
+    is a single SetPower(op, p) of the admin and succeeded: after the block the record of `op` holds exactly `p` tokens
+    and CometBFT's set holds its consensus key with exactly `p / 10^6` — whatever else the block contains
+    (applications, admissions, other adjustments, parameter updates, rejected transactions).  No hypothesis about
+    `Pre`: the invariant `M` is carried through the transactions, `Pinned` keeps the target's record. -/
+theorem c03_effect_quiet_block (s : App) (c : CSet) (b : Block) (g : G s c) (q : QuietBlock s c b)
+    (pre post : List Tx) (tx : Tx) (op p : Nat) (u : Bool) (hb : b.txs = pre ++ tx :: post)
+    (hsg : tx.signer = .admin) (hmsgs : tx.msgs = [.setPower (some op) p u]) :
+    ∃ o s' c', App.block genEnv s b = .ok (o, s') ∧ Comet.applyChangeSet c o.updates = .ok c' ∧ G s' c' ∧
+      (o.txrs[pre.length]? = some .ok →
+        ∃ v, s'.getVal op = some v ∧ v.tokens = p ∧ alookup v.key c' = some ((p / PR : Nat) : Int)) :=
+  quiet_block_effect s c b g q pre post tx op p u hb hsg hmsgs
+
+/-- **C03, requested effect, along whole histories**: from every well-formed genesis, along every quiet history of
+    any length, block by block (`EffectAll`): every successful single SetPower(op, p) of the admin leaves, after its
+    block, `op` with exactly `p` tokens and CometBFT's set with exactly `p / 10^6` for its consensus key -/
+theorem c03_effect_history_partial (g : Genesis) (hw : g.wf = true) (bs : List Block) (hq : QuietHistory g bs) :
+    ∃ first steps, run genEnv g bs = some (first, steps, RunEnd.done) ∧ EffectAll bs steps :=
+  quiet_history_effect g hw bs hq
+
+/-- non-vacuity: the second block of the D1 witness history is quiet and its only transaction, the admin's
+    SetPower(0, 11 000 000), succeeds; the clause's conclusion is what the block produced -/
+example : quietBlockB Witness.D1.s1 Witness.D1.c1 Witness.D1.b2 = true ∧
+    Witness.D1.b2.txs = [] ++ ⟨Signer.admin, 0, [Msg.setPower (some 0) 11000000 true]⟩ :: [] ∧
+    Witness.D1.o2.txrs[0]? = some .ok ∧ alookup 0 Witness.D1.c2 = some ((11000000 / PR : Nat) : Int) :=
+  ⟨by decide, rfl, by decide, by decide⟩
 
 end PoaVerif.Props.C03
